@@ -196,3 +196,16 @@ def run(ctx):
         if rule in ("R08.1b", "R08.8") and ("/Local" in k or "/Secret" in k or "/PkeSecret" in k):
             ctx.add("R05.7", "C05/decode-of-encoded/" + k.split("/", 1)[-1], ok, detail, site)
 FLOORS["R05.7"] = 12
+
+# ---- R05.8 (shared with C09 R09.1 / R09.2 / R09.3): "parsing the serialised result" — the text form of a wrapped / sealed key is
+# a mirror pair (Display writes exactly the constants FromStr strips, and base64-prints the stored bytes; FromStr decodes the whole
+# remainder), and base64 decode_vec / the encoder are exact. Without it a blob that unwraps correctly in memory would not survive
+# to_string() / parse().
+_run_c05b = run
+def run(ctx):
+    _run_c05b(ctx)
+    import shared
+    TYPES_ = ("PieWrappedKey", "PasswordWrappedKey", "SealedKey")
+    n = shared.share(ctx, "c09", lambda r, k: (r in ("R09.1", "R09.2") and k.rsplit("/", 1)[-1] in TYPES_)
+                     or (r in ("R09.3", "R09.4", "R09.7") and "/b64/" in k), "R05.8", "C05/text-form/")
+FLOORS["R05.8"] = 10
